@@ -4,6 +4,7 @@ import random
 from copy import copy
 
 from cnfgen.formula.cnf import CNF
+from cnfgen import _verif
 
 
 def Shuffle(F,
@@ -120,8 +121,15 @@ def Shuffle(F,
         substitution[-i] = -substitution[i]
 
     # load clauses
+    _verif_pairs = [] if _verif.ENABLED else None
     for (old, new) in clauses_mapping:
         assert new == out.number_of_clauses()
         out.add_clause(substitution[lit] for lit in F[old])
+        if _verif_pairs is not None:
+            _verif_pairs.append((old, new))
+    if _verif_pairs is not None:
+        out._verif_witness = {'flips': list(polarity_flips),
+                              'permutation': list(variables_permutation),
+                              'clauses': _verif_pairs}
 
     return out
